@@ -77,6 +77,7 @@ impl Val {
         if t == "N" { return Some(Val::Null); }
         if t == "bT" { return Some(Val::Bool(true)); }
         if t == "bF" { return Some(Val::Bool(false)); }
+        if t.is_empty() || !t.is_char_boundary(1) { return None; }
         let (k, rest) = t.split_at(1);
         match k {
             "i" => rest.parse::<i64>().ok().map(Val::Int),
@@ -239,20 +240,51 @@ impl Expr {
 
     /// SQL text, fully parenthesised (every non-atomic node is wrapped), so that the parser's
     /// operator precedence plays no role.
-    pub fn to_sql(&self) -> String {
+    pub fn to_sql(&self) -> String { self.to_sql_sty(0) }
+
+    /// an operand that prints without parentheses (PredImpl.bare_atom)
+    pub fn bare_atom(&self) -> bool {
+        match self {
+            Expr::Col(_) => true,
+            Expr::Lit(Val::Int(i)) => *i >= 0,
+            Expr::Lit(Val::Float(b)) => b >> 63 == 0,
+            Expr::Lit(_) => true,
+            _ => false,
+        }
+    }
+    /// a node `x` such that style 1 prints `NOT x` without parentheses around x (PredImpl.bare_target)
+    pub fn bare_target(&self) -> bool {
+        match self {
+            Expr::Cmp(_, a, _) | Expr::IsNull(_, a) | Expr::In(false, a, _) | Expr::Between(false, a, _, _) | Expr::Like(false, a, _) => a.bare_atom(),
+            _ => false,
+        }
+    }
+    /// does style 1 print some NOT bare (PredImpl.has_bare)
+    pub fn has_bare(&self) -> bool {
+        let mut found = false;
+        self.walk(&mut |x| { if let Expr::Not(a) = x { if a.bare_target() { found = true; } } });
+        found
+    }
+    /// style 0: fully parenthesised.  style 1: the same, except that `NOT x <op> y` (x an atom) is
+    /// printed without parentheses around the comparison -- standard SQL still reads
+    /// NOT (x <op> y) because NOT binds weaker than comparison, IS, IN, BETWEEN and LIKE.
+    pub fn to_sql_sty(&self, sty: u8) -> String {
         match self {
             Expr::Col(i) => col_name(*i),
             Expr::Lit(v) => v.to_sql(),
-            Expr::Arith(op, a, b) => format!("({} {} {})", a.to_sql(), op.sql(), b.to_sql()),
-            Expr::Cmp(op, a, b) => format!("({} {} {})", a.to_sql(), op.sql(), b.to_sql()),
-            Expr::And(a, b) => format!("({} AND {})", a.to_sql(), b.to_sql()),
-            Expr::Or(a, b) => format!("({} OR {})", a.to_sql(), b.to_sql()),
-            Expr::Not(a) => format!("(NOT {})", a.to_sql()),
-            Expr::In(neg, a, l) => format!("({} {}IN ({}))", a.to_sql(), if *neg { "NOT " } else { "" },
-                                           l.iter().map(|x| x.to_sql()).collect::<Vec<_>>().join(", ")),
-            Expr::Between(neg, a, l, h) => format!("({} {}BETWEEN {} AND {})", a.to_sql(), if *neg { "NOT " } else { "" }, l.to_sql(), h.to_sql()),
-            Expr::Like(neg, a, p) => format!("({} {}LIKE {})", a.to_sql(), if *neg { "NOT " } else { "" }, p.to_sql()),
-            Expr::IsNull(neg, a) => format!("({} IS {}NULL)", a.to_sql(), if *neg { "NOT " } else { "" }),
+            Expr::Arith(op, a, b) => format!("({} {} {})", a.to_sql_sty(sty), op.sql(), b.to_sql_sty(sty)),
+            Expr::Cmp(op, a, b) => format!("({} {} {})", a.to_sql_sty(sty), op.sql(), b.to_sql_sty(sty)),
+            Expr::And(a, b) => format!("({} AND {})", a.to_sql_sty(sty), b.to_sql_sty(sty)),
+            Expr::Or(a, b) => format!("({} OR {})", a.to_sql_sty(sty), b.to_sql_sty(sty)),
+            Expr::Not(a) => {
+                let inner = a.to_sql_sty(sty);
+                if sty == 1 && a.bare_target() { format!("(NOT {})", &inner[1..inner.len() - 1]) } else { format!("(NOT {})", inner) }
+            }
+            Expr::In(neg, a, l) => format!("({} {}IN ({}))", a.to_sql_sty(sty), if *neg { "NOT " } else { "" },
+                                           l.iter().map(|x| x.to_sql_sty(sty)).collect::<Vec<_>>().join(", ")),
+            Expr::Between(neg, a, l, h) => format!("({} {}BETWEEN {} AND {})", a.to_sql_sty(sty), if *neg { "NOT " } else { "" }, l.to_sql_sty(sty), h.to_sql_sty(sty)),
+            Expr::Like(neg, a, p) => format!("({} {}LIKE {})", a.to_sql_sty(sty), if *neg { "NOT " } else { "" }, p.to_sql_sty(sty)),
+            Expr::IsNull(neg, a) => format!("({} IS {}NULL)", a.to_sql_sty(sty), if *neg { "NOT " } else { "" }),
         }
     }
     /// Coq term of type SqlSpec.expr
